@@ -37,6 +37,11 @@ def mutants(r, s, k):
             out.append(s[:i] + s[i + 1] + s[i] + s[i + 2:])
         else:
             out.append(s[:i] + r.choice("#$%&!~@^*_+<>/\\|;:.xyzQWZ") + s[i:])
+    # white space and control characters outside the grammar's alphabet, at the ends and inside
+    for _ in range(max(1, k // 2)):
+        w = r.choice(["\n", "\r", "\t", "\x0b", "\x0c", "\xa0", "\x00", "\x1f", "\x7f", "\r\n", "  ", "\x85"])
+        i = r.choice([0, len(s), r.randint(0, len(s))])
+        out.append(s[:i] + w + s[i:])
     # digits: a digit put before / after / in place of a written number (leading zeros, two-digit positions, bare 0)
     import re as _re
     nums = [m.start() for m in _re.finditer(r"\d", s)]
